@@ -174,7 +174,7 @@ def run(run):
         thorough = run.tier == 'thorough'
         cat = catalogue.catalogue(run.tier, seed())
         r = seed() % 5
-        sl = tree.SLICES if thorough else [tree.SLICES[i] for i in sorted({1, 6, 8, (10, 0, 9, 2, 11, 3, 12, 4, 13, 5, 14, 7)[seed() % 12]})]
+        sl = (tree.SLICES[:8] + [tree.SLICES[i] for i in (8, 10, 12, 14)]) if thorough else [tree.SLICES[i] for i in sorted({1, 6, 8, (10, 0, 9, 2, 11, 3, 12, 4, 13, 5, 14, 7)[seed() % 12]})]
         plain = [t for t in cat['plain'] if any(100000 <= d < 200000 or d >= 300000 for d in t) or 204000 < t[0] < 205000]
         ndel = lambda t: sum(1 for d in t if 100000 <= d < 200000 and d % 1000 == 0)
         light = [t for t in cat['struct'] if ndel(t) <= 1]
